@@ -3,13 +3,13 @@ package main
 // Directed schedules: the races and fault sequences named by the property, forced through the
 // gates. Every script is followed by the common drain + probe phase of runCase.
 type dcase struct {
-	name   string
-	budget int32
-	uid    bool
-	park   []string
-	plan   string
-	pdef   byte
-	script []cmd
+	name     string
+	budget   int32
+	uid      bool
+	park     []string
+	plan     string
+	pdef     byte
+	script   []cmd
 	mod      string
 	modFirst bool
 }
